@@ -9,16 +9,18 @@ open Tea Tea.Dec Tea.Utf8
 def UnterminatedPaste (b : Bytes) : Prop :=
   bpStart.length ≤ b.length ∧ b.take bpStart.length = bpStart ∧ indexOf bpEnd (b.drop bpStart.length) = none
 
-/-- after an optional ESC, a run of printable characters reaches the end of the buffer -/
-def OpenRuneRun : Bytes → Prop
+/-- after an optional ESC, a run of printable characters reaches the end of the buffer, or
+the buffer ends inside a multi-byte character (so the run may continue in the next read) -/
+def OpenRuneRun (more : Bool) : Bytes → Prop
   | [] => False
   | x :: rest =>
-    (x :: rest).length ≤
-      (runeLoop (x == 0x1b) ((x :: rest).length + 1) (x :: rest) (if (x == 0x1b) = true then 1 else 0) []).1
+    let r := runeLoop (x == 0x1b) more ((x :: rest).length + 1) (x :: rest) (if (x == 0x1b) = true then 1 else 0) []
+    r.2.2 = true ∨ (x :: rest).length ≤ r.1
 
-/-- bytes may be held back only for these two reasons -/
-def HeldBack (b : Bytes) (more : Bool) : Prop :=
-  UnterminatedPaste b ∨ (more = true ∧ OpenRuneRun b)
+/-- bytes may be held back only for these reasons: an unterminated paste; or, when the read
+filled the buffer, the beginning of an event that may continue in the next read -/
+def HeldBack (T : Table) (b : Bytes) (more : Bool) : Prop :=
+  UnterminatedPaste b ∨ (more = true ∧ (isIncompleteEvent T b = true ∨ OpenRuneRun more b))
 
 theorem detectBracketedPaste_spec {b : Bytes} {w : Nat} {m : Option Msg}
     (h : detectBracketedPaste b = some (w, m)) :
@@ -97,7 +99,7 @@ theorem detectMouse_spec {b : Bytes} {w : Nat} {m : Msg} (h : detectMouse b = .o
 
 theorem detectTail_spec (b : Bytes) (more : Bool) (hb : b ≠ []) :
     ∃ w m, detectTail b more = .ok (w, m) ∧ w ≤ b.length ∧
-      (0 < w → m.isSome) ∧ (w = 0 → m = none ∧ more = true ∧ OpenRuneRun b) := by
+      (0 < w → m.isSome) ∧ (w = 0 → m = none ∧ more = true ∧ OpenRuneRun more b) := by
   cases b with
   | nil => exact absurd rfl hb
   | cons x rest =>
@@ -107,74 +109,87 @@ theorem detectTail_spec (b : Bytes) (more : Bool) (hb : b ≠ []) :
     dsimp only
     have hi0 : (if (x == 0x1b) = true then 1 else 0) ≤ (x :: rest).length := by
       split <;> simp
-    have hOpen : OpenRuneRun (x :: rest) ↔ (x :: rest).length ≤
-        (runeLoop (x == 0x1b) ((x :: rest).length + 1) (x :: rest) (if (x == 0x1b) = true then 1 else 0) []).1 := by
+    have hOpen : OpenRuneRun more (x :: rest) ↔
+        ((runeLoop (x == 0x1b) more ((x :: rest).length + 1) (x :: rest) (if (x == 0x1b) = true then 1 else 0) []).2.2 = true ∨
+         (x :: rest).length ≤
+          (runeLoop (x == 0x1b) more ((x :: rest).length + 1) (x :: rest) (if (x == 0x1b) = true then 1 else 0) []).1) := by
       exact Iff.rfl
-    have hrl := runeLoop_bound (x == 0x1b) ((x :: rest).length + 1) (x :: rest) (if (x == 0x1b) = true then 1 else 0) [] hi0
-    have hadv := runeLoop_adv (x == 0x1b) ((x :: rest).length + 1) (x :: rest) (if (x == 0x1b) = true then 1 else 0) [] hi0
+    have hrl := runeLoop_bound (x == 0x1b) more ((x :: rest).length + 1) (x :: rest) (if (x == 0x1b) = true then 1 else 0) [] hi0
+    have hadv := runeLoop_adv (x == 0x1b) more ((x :: rest).length + 1) (x :: rest) (if (x == 0x1b) = true then 1 else 0) [] hi0
+    have hinc : (runeLoop (x == 0x1b) more ((x :: rest).length + 1) (x :: rest) (if (x == 0x1b) = true then 1 else 0) []).2.2 = true → more = true :=
+      runeLoop_incomplete_more _ _ _ _ _ _
     generalize (if (x == 0x1b) = true then 1 else 0) = i0 at *
-    generalize runeLoop (x == 0x1b) ((x :: rest).length + 1) (x :: rest) i0 [] = rl at *
-    obtain ⟨i, runes⟩ := rl
-    simp only at hrl hadv hOpen ⊢
+    generalize runeLoop (x == 0x1b) more ((x :: rest).length + 1) (x :: rest) i0 [] = rl at *
+    obtain ⟨i, runes, inc⟩ := rl
+    simp only at hrl hadv hOpen hinc ⊢
     by_cases hnul : (decide (i0 < (x :: rest).length) && (x :: rest).getD i0 1 == 0) = true
     · rw [if_pos hnul]
       simp only [Bool.and_eq_true, decide_eq_true_eq] at hnul
       exact ⟨_, _, rfl, by omega, fun _ => rfl, fun h => by omega⟩
     · rw [if_neg hnul]
-      by_cases hmore : (decide (i ≥ (x :: rest).length) && more) = true
-      · rw [if_pos hmore]
-        simp only [ge_iff_le, Bool.and_eq_true, decide_eq_true_eq] at hmore
-        exact ⟨0, none, rfl, Nat.zero_le _, fun h => by omega, fun _ => ⟨rfl, hmore.2, hOpen.2 hmore.1⟩⟩
-      · rw [if_neg hmore]
-        by_cases hr : runes.length > 0
-        · rw [if_pos hr]
-          refine ⟨_, _, rfl, hrl.1, fun _ => rfl, ?_⟩
-          intro hi
-          rcases hadv with h1 | h1
-          · simp at h1; rw [h1] at hr; simp at hr
-          · omega
-        · rw [if_neg hr]
-          split
-          · exact ⟨1, _, rfl, by simp, fun _ => rfl, fun h => by omega⟩
-          · exact ⟨1, _, rfl, by simp, fun _ => rfl, fun h => by omega⟩
+      by_cases hincb : inc = true
+      · rw [if_pos hincb]
+        exact ⟨0, none, rfl, Nat.zero_le _, fun h => by omega, fun _ => ⟨rfl, hinc hincb, hOpen.2 (Or.inl hincb)⟩⟩
+      · rw [if_neg hincb]
+        by_cases hmore : (decide (i ≥ (x :: rest).length) && more) = true
+        · rw [if_pos hmore]
+          simp only [ge_iff_le, Bool.and_eq_true, decide_eq_true_eq] at hmore
+          exact ⟨0, none, rfl, Nat.zero_le _, fun h => by omega, fun _ => ⟨rfl, hmore.2, hOpen.2 (Or.inr hmore.1)⟩⟩
+        · rw [if_neg hmore]
+          by_cases hr : runes.length > 0
+          · rw [if_pos hr]
+            refine ⟨_, _, rfl, hrl.1, fun _ => rfl, ?_⟩
+            intro hi
+            rcases hadv with h1 | h1
+            · simp at h1; rw [h1] at hr; simp at hr
+            · omega
+          · rw [if_neg hr]
+            split
+            · exact ⟨1, _, rfl, by simp, fun _ => rfl, fun h => by omega⟩
+            · exact ⟨1, _, rfl, by simp, fun _ => rfl, fun h => by omega⟩
 
 /-- detectOneMsg on a non-empty buffer: no panic, width within bounds, a message whenever
-the width is non-zero, and a zero width only for the two documented reasons. -/
+the width is non-zero, and a zero width only for the documented reasons. -/
 theorem detectOneMsg_spec (T : Table) (lens : List Nat) (b : Bytes) (more : Bool)
     (hb : b ≠ []) (hl : ∀ l ∈ lens, 0 < l) :
     ∃ w m, detectOneMsg T lens b more = .ok (w, m) ∧ w ≤ b.length ∧
-      (0 < w → m.isSome) ∧ (w = 0 → m = none ∧ HeldBack b more) := by
-  obtain ⟨mr, hmr⟩ := detectMouse_ok b
+      (0 < w → m.isSome) ∧ (w = 0 → m = none ∧ HeldBack T b more) := by
   unfold detectOneMsg
-  rw [hmr]
-  cases mr with
-  | some p =>
-    obtain ⟨w, m⟩ := p
-    have := detectMouse_spec hmr
-    exact ⟨w, some m, rfl, this.2, fun _ => rfl, fun h => by omega⟩
-  | none =>
-    dsimp only
-    split
-    · rename_i w m hf
-      have := detectReportFocus_spec hf
-      exact ⟨w, some m, rfl, by omega, fun _ => rfl, fun h => by omega⟩
-    · split
-      · rename_i w m hp
-        have := detectBracketedPaste_spec hp
-        refine ⟨w, m, rfl, this.1, ?_, ?_⟩
-        · intro hw
-          rcases this.2 with h | h
-          · omega
-          · exact h.2
-        · intro hw
-          rcases this.2 with h | h
-          · exact ⟨h.2.1, Or.inl h.2.2⟩
-          · omega
+  by_cases hinc : (more && isIncompleteEvent T b) = true
+  · rw [if_pos hinc]
+    simp only [Bool.and_eq_true] at hinc
+    exact ⟨0, none, rfl, Nat.zero_le _, fun h => by omega, fun _ => ⟨rfl, Or.inr ⟨hinc.1, Or.inl hinc.2⟩⟩⟩
+  · rw [if_neg hinc]
+    obtain ⟨mr, hmr⟩ := detectMouse_ok b
+    rw [hmr]
+    cases mr with
+    | some p =>
+      obtain ⟨w, m⟩ := p
+      have := detectMouse_spec hmr
+      exact ⟨w, some m, rfl, this.2, fun _ => rfl, fun h => by omega⟩
+    | none =>
+      dsimp only
+      split
+      · rename_i w m hf
+        have := detectReportFocus_spec hf
+        exact ⟨w, some m, rfl, by omega, fun _ => rfl, fun h => by omega⟩
       · split
-        · rename_i w m hs
-          have := detectSequence_spec hl hs
-          exact ⟨w, some m, rfl, this.2, fun _ => rfl, fun h => by omega⟩
-        · obtain ⟨w, m, h1, h2, h3, h4⟩ := detectTail_spec b more hb
-          exact ⟨w, m, h1, h2, h3, fun hw => ⟨(h4 hw).1, Or.inr (h4 hw).2⟩⟩
+        · rename_i w m hp
+          have := detectBracketedPaste_spec hp
+          refine ⟨w, m, rfl, this.1, ?_, ?_⟩
+          · intro hw
+            rcases this.2 with h | h
+            · omega
+            · exact h.2
+          · intro hw
+            rcases this.2 with h | h
+            · exact ⟨h.2.1, Or.inl h.2.2⟩
+            · omega
+        · split
+          · rename_i w m hs
+            have := detectSequence_spec hl hs
+            exact ⟨w, some m, rfl, this.2, fun _ => rfl, fun h => by omega⟩
+          · obtain ⟨w, m, h1, h2, h3, h4⟩ := detectTail_spec b more hb
+            exact ⟨w, m, h1, h2, h3, fun hw => ⟨(h4 hw).1, Or.inr ⟨(h4 hw).2.1, Or.inr (h4 hw).2.2⟩⟩⟩
 
 end Tea.Input
